@@ -619,7 +619,10 @@ func (root *Root) resolveField(
 		ea = append(ea, ea2...)
 		result[field.key()] = fv
 	}
-	if depth < MaxResolveDepth {
+	if _, top := t.(*Schema); !top {
+		// The field made up for the operation, a field of the schema, is
+		// not part of a path whatever depth the operation is resolved with
+		// (a subscription is resolved with a depth of 1).
 		Errors(ea).in(field.key())
 	}
 	return
